@@ -152,6 +152,53 @@ def divideSegment (ar : Arith) (cfg : Cfg) (st : SwSt) (seL : Nat) (inter : Pt) 
     let h := Heap.push (evLe a) h ri
     return { st with arena := a, heap := h, bumps := st.bumps + (if bump then 1 else 0) }
 
+/-- the `events` vector of the overlap branch: the end events of the two segments that do not coincide, in
+    sweep order (`(event, its other event)`) -/
+def overlapEvents (a : Arena) (se1 other1 se2 other2 : Nat) : Array (Nat × Nat) :=
+  let p1 := a[se1]!.point
+  let p2 := a[se2]!.point
+  let q1 := a[other1]!.point
+  let q2 := a[other2]!.point
+  let evs : Array (Nat × Nat) :=
+    if decide (p1 = p2) then #[]
+    else if cmpEv a se1 se2 == .lt then #[(se2, other2), (se1, other1)]
+    else #[(se1, other1), (se2, other2)]
+  if decide (q1 = q2) then evs
+  else if cmpEv a other1 other2 == .lt then (evs.push (other2, se2)).push (other1, se1)
+  else (evs.push (other1, se1)).push (other2, se2)
+
+/-- left endpoints coincide: the upper segment stops contributing, the lower one carries the transition -/
+def markCoincident (a : Arena) (se1 se2 : Nat) : Arena :=
+  let a' := a.modify se2 (fun ev => { ev with edgeType := .nonContributing })
+  a'.modify se1 (fun ev => { ev with edgeType :=
+              if a'[se1]!.inOut = a'[se2]!.inOut then .sameTransition else .differentTransition })
+
+/-- the collinear-overlap branch of `possible_intersection` -/
+def overlapBranch (ar : Arith) (cfg : Cfg) (st : SwSt) (se1 other1 se2 other2 : Nat) : Except Fail (Nat × SwSt) := do
+  let a := st.arena
+  if a[se1]!.isSubject = a[se2]!.isSubject then return (0, st) else
+  let leftCoincide := decide (a[se1]!.point = a[se2]!.point)
+  let rightCoincide := decide (a[other1]!.point = a[other2]!.point)
+  let evs := overlapEvents a se1 other1 se2 other2
+  if leftCoincide then
+    let a := markCoincident a se1 se2
+    let st := { st with arena := a }
+    let st ← if !rightCoincide then divideSegment ar cfg st evs[1]!.2 a[evs[0]!.1]!.point else pure st
+    return (2, st)
+  if rightCoincide then
+    let st ← divideSegment ar cfg st evs[0]!.1 a[evs[1]!.1]!.point
+    return (3, st)
+  if evs[0]!.1 ≠ evs[3]!.2 then
+    let st ← divideSegment ar cfg st evs[0]!.1 a[evs[1]!.1]!.point
+    let st ← divideSegment ar cfg st evs[1]!.1 a[evs[2]!.1]!.point
+    return (3, st)
+  let st ← divideSegment ar cfg st evs[0]!.1 a[evs[1]!.1]!.point
+  match st.arena[evs[3]!.1]!.other with
+  | none => throw (.panic .unwrapOther)
+  | some o =>
+    let st ← divideSegment ar cfg st o a[evs[2]!.1]!.point
+    return (3, st)
+
 /-- `possible_intersection(se1, se2, queue)`: the return code and the new state -/
 def possibleIntersection (ar : Arith) (cfg : Cfg) (st : SwSt) (se1 se2 : Nat) : Except Fail (Nat × SwSt) := do
   let a := st.arena
@@ -169,38 +216,7 @@ def possibleIntersection (ar : Arith) (cfg : Cfg) (st : SwSt) (se1 se2 : Nat) : 
       let st ← if p1 ≠ inter ∧ q1 ≠ inter then divideSegment ar cfg st se1 inter else pure st
       let st ← if p2 ≠ inter ∧ q2 ≠ inter then divideSegment ar cfg st se2 inter else pure st
       return (1, st)
-    | .overlap _ _ =>
-      if a[se1]!.isSubject = a[se2]!.isSubject then return (0, st) else
-      let leftCoincide := decide (p1 = p2)
-      let evs : Array (Nat × Nat) :=
-        if leftCoincide then #[]
-        else if cmpEv a se1 se2 == .lt then #[(se2, other2), (se1, other1)]
-        else #[(se1, other1), (se2, other2)]
-      let rightCoincide := decide (q1 = q2)
-      let evs : Array (Nat × Nat) :=
-        if rightCoincide then evs
-        else if cmpEv a other1 other2 == .lt then (evs.push (other2, se2)).push (other1, se1)
-        else (evs.push (other1, se1)).push (other2, se2)
-      if leftCoincide then
-        let a := a.modify se2 (fun ev => { ev with edgeType := .nonContributing })
-        let a := a.modify se1 (fun ev => { ev with edgeType :=
-                    if a[se1]!.inOut = a[se2]!.inOut then .sameTransition else .differentTransition })
-        let st := { st with arena := a }
-        let st ← if !rightCoincide then divideSegment ar cfg st evs[1]!.2 a[evs[0]!.1]!.point else pure st
-        return (2, st)
-      if rightCoincide then
-        let st ← divideSegment ar cfg st evs[0]!.1 a[evs[1]!.1]!.point
-        return (3, st)
-      if evs[0]!.1 ≠ evs[3]!.2 then
-        let st ← divideSegment ar cfg st evs[0]!.1 a[evs[1]!.1]!.point
-        let st ← divideSegment ar cfg st evs[1]!.1 a[evs[2]!.1]!.point
-        return (3, st)
-      let st ← divideSegment ar cfg st evs[0]!.1 a[evs[1]!.1]!.point
-      match st.arena[evs[3]!.1]!.other with
-      | none => throw (.panic .unwrapOther)
-      | some o =>
-        let st ← divideSegment ar cfg st o a[evs[2]!.1]!.point
-        return (3, st)
+    | .overlap _ _ => overlapBranch ar cfg st se1 other1 se2 other2
   | _, _ => return (0, st)
 
 /-! ### compute_fields -/
